@@ -62,8 +62,8 @@ def fmtNumber (bits : UInt64) : List Char :=
 
 -- strconv.Quote -------------------------------------------------------------------------------------
 
-def knownPrintable : List Nat := [0xE9, 0xFC, 0xDF, 0x4E2D, 0x6587, 0x3042, 0x1F600, 0xFFFD, 0xD7, 0xB7, 0x20AC]
-def knownUnprintable : List Nat := [0xA0, 0xAD, 0x200B, 0x200C, 0x2028, 0xFEFF, 0x85, 0x9F, 0xE000, 0x10FFFF, 0xFFFE, 0x2003]
+def knownPrintable : List Nat := [0xE9, 0xFC, 0xDF, 0x4E2D, 0x6587, 0x3042, 0x1F600, 0xFFFD, 0xD7, 0xB7, 0x20AC, 0xFF, 0x100, 0x10000]
+def knownUnprintable : List Nat := [0xA0, 0xAD, 0x200B, 0x200C, 0x2028, 0xFEFF, 0x85, 0x9F, 0xE000, 0x10FFFF, 0xFFFE, 0x2003, 0x80, 0x81, 0xFFFF]
 
 inductive Printable | yes | no | unknown
 
